@@ -456,7 +456,17 @@ class Check:
 # helpers for extractors
 # ---------------------------------------------------------------------------
 
+PINNED = False
+
+
 def read_src(rel):
+    """Source text of /repo's working tree; with PINNED set, of /repo's HEAD commit
+    (used only as a fall-back layout when a translator cannot parse the working tree)."""
+    if PINNED:
+        rc, out, err = sh(["git", "-C", str(REPO), "show", "HEAD:" + rel])
+        if rc != 0:
+            raise RuntimeError("git show HEAD:%s failed: %s" % (rel, err))
+        return out
     return (REPO / rel).read_text(errors="replace")
 
 
